@@ -10,6 +10,8 @@ R3  always closed: _handle_websocket closes after the responder, every
 R4  close-code validation (partition of the integer line by the folded
     comparisons of close()) and the spec-version gate of the close reason.
 R5  payload types.
+R7  = C18 R6 (shared): ``_BufferedReceiver.receive()`` hands out the synthesised disconnect only when no message is
+    buffered ("payloads arrive unchanged, in order" includes the ones that preceded a disconnect; seeded s5-c17-2).
 R6  the receive pump raises ``client_disconnected`` (what ``_send``/``closed``/``ready`` consult) before its next
     suspension point after pulling the disconnect event (function lives in c18.py: same pump context as C18 R3).
 
@@ -42,7 +44,7 @@ from ..model import UNKNOWN, AnchorError, Func, UnknownIdiom, short
 from . import c18 as _c18
 from .c17_helpers import (BOTH, OUT_EVENTS, RET_NONE, STATES, WS, WSModel, fold_local, local_defs, possible, return_kinds,
                           single_return_expr)
-from .common import implied, single, strip_await, walk_self
+from .common import ancestors, enclosing_map, implied, single, strip_await, walk_self
 
 ASGI_APP = 'falcon.asgi.app.App'
 HANDLE_WS = ASGI_APP + '._handle_websocket'
@@ -99,7 +101,7 @@ def _legal_emit(etype, cell):
 
 
 def _public_ops(model: WSModel) -> List[Func]:
-    return [f for name, f in sorted(model.cls.methods.items()) if not name.startswith('_') and not f.is_property()]
+    return model.public_ops()
 
 
 def r1_operations(run):
@@ -111,6 +113,23 @@ def r1_operations(run):
         if need not in names:
             raise AnchorError('%s.%s not found' % (WS, need))
     run.extra['c17_state_attr'] = model.state_attr
+    terminal = set(model.terminal_states())
+    extra_terminal = set(model.extra_terminal_states())
+    run.extra['c17_states'] = {'members': list(model.members), 'possible': list(model.states()), 'terminal': sorted(terminal),
+                               'never written (not a state of any connection)': list(model.unwritten_members)}
+    # A failed obligation in an ADDITIONAL terminal state M is laid at the door of the guard(s) that tell CLOSED and M apart
+    # (they refuse a CLOSED socket and let an M one through); one violation per guard, naming M.
+    blamed: Dict[tuple, dict] = {}
+
+    def fail_or_blame(f, cell, what, construct, witness, runtime_witness):
+        guards = model.guards_distinguishing(f, 'CLOSED', cell[0], cell[1]) if cell[0] in extra_terminal else []
+        if not guards:
+            run.fail(what, f, construct, witness=witness, runtime_witness=runtime_witness)
+            return
+        for (g, cond) in guards:
+            b = blamed.setdefault((g.qual, ast.unparse(cond), cell[0]), {'g': g, 'cond': cond, 'm': cell[0], 'ops': [], 'rw': runtime_witness})
+            b['ops'].append(what)
+
     for f in ops:
         run.use_cfg(cfg_of(f, p))
         kind = ('accept' if f.name == 'accept' else 'close' if f.name == 'close' else
@@ -138,26 +157,31 @@ def r1_operations(run):
                 run.ok('%s: every event put on the ASGI send / every ASGI receive is legal in the state in which it happens' % tag,
                        where, f.name)
             else:
-                run.fail('%s: %s' % (tag, bad[0]), f, '%s [%s] %s' % (f.name, _cellstr(cell), bad[0].split(' at ')[0]),
-                         witness=[bad[0]],
-                         runtime_witness='a responder calling ws.%s() with the connection in state %s' % (f.name, _cellstr(cell)))
+                fail_or_blame(f, cell, '%s: %s' % (tag, bad[0]), '%s [%s] %s' % (f.name, _cellstr(cell), bad[0].split(' at ')[0]),
+                              [bad[0]], 'a responder calling ws.%s() with the connection in state %s' % (f.name, _cellstr(cell)))
             # (b) wrong state -> documented error, never a silent success
             expect = None
             if kind in ('send', 'receive'):
                 if cell[0] == 'HANDSHAKE':
                     expect = E_NOT_ALLOWED
-                elif cell[0] == 'CLOSED' or (kind == 'send' and cell[1]):
+                elif cell[0] in terminal or (kind == 'send' and cell[1]):
                     expect = E_DISCONNECTED
             elif kind == 'accept' and cell[0] != 'HANDSHAKE':
                 expect = E_NOT_ALLOWED
             if expect is not None:
                 classes = {q for (q, _c, _f, _n) in r.raises}
                 stray = sorted(c for c in classes if c not in ARG_ERRORS and c != expect and p.is_subclass(c, expect) is not True)
-                run.check(not r.exits and expect in {c for c in classes} | {c for c in classes if p.is_subclass(c, expect) is True} and not stray,
-                          '%s: cannot complete normally and raises %s' % (tag, expect.rsplit('.', 1)[1]), f,
-                          '%s [%s] wrong-state error' % (f.name, _cellstr(cell)),
-                          witness=['normal exit reachable in %s' % sorted(r.exits)] if r.exits else ['raises %s' % sorted(classes)],
-                          runtime_witness='ws.%s() in state %s returns normally or raises an undocumented error' % (f.name, _cellstr(cell)))
+                unread = [c for c in stray if c.startswith('?')]
+                if unread:
+                    raise UnknownIdiom('%s: %s raises %s, whose class is not understood' % (f.qual, tag, unread[0][1:]))
+                good = not r.exits and expect in {c for c in classes} | {c for c in classes if p.is_subclass(c, expect) is True} and not stray
+                what = '%s: cannot complete normally and raises %s' % (tag, expect.rsplit('.', 1)[1])
+                if good:
+                    run.ok(what, f.loc(), '%s [%s] wrong-state error' % (f.name, _cellstr(cell)))
+                else:
+                    fail_or_blame(f, cell, what, '%s [%s] wrong-state error' % (f.name, _cellstr(cell)),
+                                  ['normal exit reachable in %s' % sorted(r.exits)] if r.exits else ['raises %s' % sorted(classes)],
+                                  'ws.%s() in state %s returns normally or raises an undocumented error' % (f.name, _cellstr(cell)))
             # (c) post-state
             if kind == 'accept' and cell[0] == 'HANDSHAKE' and not cell[1]:
                 if not r.exits:
@@ -165,10 +189,16 @@ def r1_operations(run):
                 run.check(all(s == 'ACCEPTED' for (s, _d) in r.exits), 'accept(): the state is ACCEPTED on every normal return (a second accept is refused)',
                           f, 'accept post-state', witness=['exit states %s' % sorted(r.exits)])
             if kind == 'close':
-                run.check(all(s == 'CLOSED' or d for (s, d) in r.exits),
-                          '%s: the connection is closed (state CLOSED or client gone) on every normal return (at most one close event)' % tag,
+                run.check(all(s in terminal or d for (s, d) in r.exits),
+                          '%s: the connection is closed (state %s or client gone) on every normal return (at most one close event)' % (tag, '/'.join(sorted(terminal))),
                           f, 'close post-state [%s]' % _cellstr(cell), witness=['exit states %s' % sorted(r.exits)],
                           runtime_witness='two ws.close() calls both emit websocket.close')
+    for (gq, ctext, mname), b in sorted(blamed.items()):
+        g = b['g']
+        run.fail('%s: this guard refuses a socket in state CLOSED but lets one in state %s through, although %s is recorded when the '
+                 'connection ends (it is written by close()/the disconnect paths): every operation that must fail after close fails in '
+                 'every terminal state' % (g.name, mname, mname), g, '%s [%s]' % (ctext, mname), where=g.loc(b['cond']),
+                 witness=sorted(set(b['ops']))[:10], runtime_witness=b['rw'])
     # receive: a disconnect event becomes CLOSED + WebSocketDisconnected
     recv_funcs = sorted({fq for f in ops for cell in model.all_cells() for (_c, fq, _n) in model.analyse(f, cell).recvs})
     if not recv_funcs:
@@ -195,14 +225,15 @@ def _state_follows_completed_send(run, model: WSModel, f: Func):
     p = run.project
     cfg = cfg_of(f, p)
     promised, etype = ('ACCEPTED', 'websocket.accept') if f.name == 'accept' else ('CLOSED', 'websocket.close')
+    promised_set = (promised,) if promised == 'ACCEPTED' else tuple(model.terminal_states())
     emit = model.emit_nodes(f, etype)
     if not emit:
         raise AnchorError('%s: no statement through which the %s event is sent' % (f.qual, etype))
     emit_asts = {id(cfg.node(e).ast) for e in emit}
-    writes = [s for s in model.state_write_stmts(f, promised) if id(s) not in emit_asts]
+    writes = [s for s in model.state_write_stmts(f, promised_set) if id(s) not in emit_asts]
     if not writes:
         r = model.analyse(f, ('HANDSHAKE' if f.name == 'accept' else 'ACCEPTED', False))
-        if r.exits and all(s == promised or (d and f.name == 'close') for (s, d) in r.exits):
+        if r.exits and all(s in promised_set or (d and f.name == 'close') for (s, d) in r.exits):
             raise UnknownIdiom('%s: the state %s is reached, but not through an assignment in %s() or in a method it calls '
                                'after the send' % (f.qual, promised, f.name))
         return  # the post-state obligation above already reports the missing write
@@ -262,7 +293,7 @@ def _failed_send_marks_closed(run, model: WSModel, ops: List[Func]):
         run.use_cfg(cfg)
         starts = [y for s in sends for (y, l) in cfg.succ[s] if l == 'exc']
         send_asts = {id(cfg.node(s).ast) for s in sends}
-        writes = [w for w in model.state_write_stmts(g, 'CLOSED') if id(w) not in send_asts]
+        writes = [w for w in model.state_write_stmts(g, tuple(model.terminal_states())) if id(w) not in send_asts]
         exc_names = {n.ast.name for n in cfg.live_nodes() if n.kind == 'handler' and isinstance(n.ast, ast.ExceptHandler) and n.ast.name}
 
         def helper_call(e, g=g, exc_names=exc_names):
@@ -446,7 +477,7 @@ def _receive_disconnect(run, model: WSModel, f: Func):
 
     starts = [y for (y, l) in cfg.succ[start] if l != 'exc']
     closed_writes = [n.id for n in cfg.live_nodes() if n.kind == 'stmt' and isinstance(n.ast, ast.Assign)
-                     and len(n.ast.targets) == 1 and model.is_state(n.ast.targets[0]) and model._member(f, n.ast.value) == 'CLOSED']
+                     and len(n.ast.targets) == 1 and model.is_state(n.ast.targets[0]) and model._member(f, n.ast.value) in model.terminal_states()]
     # disconnect
     filt = feasible(cfg, atom_for('websocket.disconnect'))
     reach = flow.reachable(cfg, starts, edge_filter=filt)
@@ -879,7 +910,12 @@ def _cleanup_codes(run, model: WSModel, h: Func):
         wsp = [a for a in m.params() if a != 'self'][0]
         closes = [(n, c) for n in cfg.live_nodes() for c in n.calls() if isinstance(c.func, ast.Attribute) and c.func.attr == 'close'
                   and isinstance(c.func.value, ast.Name) and c.func.value.id == wsp]
-        first = [(n, c) for (n, c) in closes if c.args and isinstance(c.args[0], ast.Attribute) and c.args[0].attr == 'error_close_code']
+        def configured_code(e):
+            e = _one_def(m, e)        # looks through a single-assignment local
+            return isinstance(e, ast.Attribute) and e.attr == 'error_close_code'
+
+        first = [(n, c) for (n, c) in closes if (c.args and configured_code(c.args[0]))
+                 or any(kw.arg == 'code' and configured_code(kw.value) for kw in c.keywords)]
         if not first:
             run.fail('%s: the socket is not closed with ws_options.error_close_code' % m.name, m, closes[0][1] if closes else m.name)
             continue
@@ -891,6 +927,7 @@ def _cleanup_codes(run, model: WSModel, h: Func):
                 run.fail('%s: no fallback close when the configured code is rejected' % m.name, m, c,
                          runtime_witness='error_close_code=999 -> ValueError escapes, no close event is sent')
                 continue
+            _fallback_for_any_exception(run, m, cfg, n, c, fallback)
             for (n2, c2) in fallback:
                 v = fold_local(p, m, c2.args[0]) if c2.args else UNKNOWN
                 verdict = _classify_code(p, model, v) if isinstance(v, int) else None
@@ -911,6 +948,81 @@ def _cleanup_codes(run, model: WSModel, h: Func):
                     run.check(not missing, '%s: the fallback is selected for every message close() uses to reject an out-of-range code' % m.name, m, x,
                               witness=['not matched: %r' % mm for mm in missing],
                               runtime_witness='error_close_code=999: the ValueError text is not recognised, the error is re-raised and no close is sent')
+
+
+def _handler_catches_plain_exception(p, f: Func, h: ast.ExceptHandler) -> bool:
+    """does `h` catch an instance of class Exception itself (what a server raises when it has no better class)"""
+    if h.type is None:
+        return True
+    for t in (h.type.elts if isinstance(h.type, ast.Tuple) else [h.type]):
+        q = p.resolve_expr(f.module, t, f)
+        if q is None:
+            raise UnknownIdiom('%s: exception class %s of an except clause around the close' % (f.qual, short(t)))
+        r = p.is_subclass('builtins.Exception', q)
+        if r is None:
+            raise UnknownIdiom('%s: cannot decide whether except %s catches Exception' % (f.qual, short(t)))
+        if r:
+            return True
+    return False
+
+
+def _fallback_for_any_exception(run, m: Func, cfg, n, c, fallback):
+    """The cleanup fallback serves *every* failure of the first close attempt - close()'s own ValueError for a
+    misconfigured code and whatever the SERVER's send() raises when it refuses the code (Daphne/Autobahn: a plain
+    ``Exception('invalid close code 1011')``).  Decided by dispatching an exception of class ``Exception`` raised by
+    the first ``ws.close(<configured code>)`` over the enclosing ``try`` statements (innermost first, clauses in
+    order): the first clause that catches it must be able to reach the fallback close.  How that arm then decides
+    (today: a test of the message) is read by the caller, not frozen here.
+
+    A fallback that is reachable only from arms for narrower classes is a violation on those ``except`` clauses."""
+    p = run.project
+    parent = enclosing_map(m.node)
+    stmt = n.ast if n.ast is not None else n.stmt
+    arm = None
+    child = stmt
+    for a in ancestors(stmt, parent):
+        if isinstance(a, (ast.FunctionDef, ast.AsyncFunctionDef, ast.Lambda)):
+            break
+        if isinstance(a, ast.Try) and any(child is s for s in a.body):
+            for h in a.handlers:
+                if _handler_catches_plain_exception(p, m, h):
+                    arm = h
+                    break
+            if arm is not None:
+                break
+        elif getattr(ast, 'TryStar', None) is not None and isinstance(a, ast.TryStar):
+            raise UnknownIdiom('%s: except* around the close' % m.qual)
+        child = a
+    fb_nodes = [n2.id for (n2, _c2) in fallback]
+
+    def reaches(h):
+        hn = [i for i in cfg.nodes_for(h) if cfg.node(i).kind == 'handler']
+        if not hn:
+            raise UnknownIdiom('%s: except clause %s not found in the CFG' % (m.qual, short(h.type) if h.type is not None else ''))
+        return bool(flow.reachable(cfg, hn) & set(fb_nodes))
+
+    ok = arm is not None and reaches(arm)
+    what = ('%s: an exception of class Exception raised by the first close attempt (a server that refuses the configured code) is '
+            'caught by an arm from which the fallback close is reachable' % m.name)
+    rw = ('Daphne/Autobahn refuse error_close_code 1011 with a plain Exception("invalid close code 1011") from send(): the fallback close '
+          'with the framework\'s own code is never attempted, no close reaches the client and the ASGI callable raises')
+    if ok:
+        run.ok(what, m.loc(arm), 'except %s' % short(arm.type) if arm.type is not None else 'except')
+        return
+    narrow = []
+    for y in [y for (y, l) in cfg.succ[n.id] if l == 'exc' and cfg.node(y).kind == 'handler']:
+        h = cfg.node(y).ast
+        if h is not arm and isinstance(h, ast.ExceptHandler) and flow.reachable(cfg, [y]) & set(fb_nodes):
+            narrow.append(h)
+    if not narrow:
+        raise UnknownIdiom('%s: the fallback close is reachable from the failed first close, but not through an except clause' % m.qual)
+    for h in narrow:
+        run.fail(what, m, 'except %s' % short(h.type) if h.type is not None else 'except', where=m.loc(h),
+                 witness=['first attempt: %s %s' % (m.loc(c), short(c)),
+                          'fallback only under: except %s' % (short(h.type) if h.type is not None else ''),
+                          'an Exception is dispatched to: %s' % ('%s except %s' % (m.loc(arm), short(arm.type) if arm.type is not None else '')
+                                                                 if arm is not None else 'no clause (it escapes)')],
+                 runtime_witness=rw)
 
 
 def _default_responder_status(run):
@@ -1346,3 +1458,5 @@ def check(run):
     run.rule('R5', r5_payload_types, 'payload type checks', floor=11)
     run.rule('R6', _c18.disconnect_flag_prompt, 'the receive pump raises the client_disconnected flag before it suspends again after pulling the '
                                                 'disconnect (nothing is sent after the connection is lost; pump context shared with C18 R3)', floor=1)
+    run.rule('R7', _c18.r6_end_of_stream, 'payloads arrive in order and none is dropped at the end of a session: receive() reports "client gone" only '
+                                          'when no message is buffered (= C18 R6, shared)', floor=2)
